@@ -3,7 +3,7 @@
    oracle's answer.  The build theorems of BuildNames.v / Properties/C15.v are stated for an arbitrary
    oracle `topo`; this file discharges, for the instance used by the Examples and by the correspondence
    runs (CorrC15.v), that the BadOrder branch of model_init is unreachable on duplicate-free node lists. *)
-From Coq Require Import List Arith Bool Lia.
+From Coq Require Import List Arith Bool Lia Permutation.
 Import ListNotations.
 From LV Require Import Graph.Build Graph.BuildProofs.
 Open Scope list_scope.
@@ -248,7 +248,18 @@ Proof.
   pose proof (cycle_has_no_order w ns ord a P (is_topo_members _ _ _ E a Ha)) as C. congruence.
 Qed.
 
+
+(* the answer is a rearrangement of the node list: nothing added, nothing lost, nothing repeated *)
+Theorem naive_topo_permutation : forall w ns order,
+  NoDup ns -> naive_topo w ns = Some order -> Permutation order ns.
+Proof.
+  intros w ns order Hnd H.
+  destruct (naive_topo_order_respects_inputs _ _ _ Hnd H) as [H1 [H2 _]].
+  apply NoDup_Permutation; assumption.
+Qed.
+
 Print Assumptions naive_topo_sound.
 Print Assumptions naive_topo_decides.
 Print Assumptions model_init_naive_never_badorder.
 Print Assumptions cycle_rejected_by_naive_topo.
+Print Assumptions naive_topo_permutation.
